@@ -1,13 +1,16 @@
 /-
 C07 — static analysis: the load vector is the loads' virtual work and `K c = f` is solved.
-`Model/Static.lean` is tied to `Panel.calc_fext`, `PanelAssembly.calc_fext` and `compmech.sparse.solve` by the
-correspondence of tools/props/C07.py; the shape-function rows `g` are those of the regenerated kernel `cfg`
+`Model/Static.lean` is tied to `Panel.calc_fext`, `PanelAssembly.calc_fext` and `compmech.sparse.solve`, `Model/BayLoads.lean` to
+`StiffPanelBay.calc_fext`, `PanelAssembly.__init__/calc_fext` (running `col_start`), `sparse.solve` with its own `used_cols`,
+`Analysis.static(NLgeom=False)` and `static()` by the correspondences of tools/props/C07.py; the shape-function rows `g` are those of the regenerated kernel `cfg`
 (Gen/Field), which C11 proves to be the amplitude-derivative of the very series that `uvw` evaluates.
 -/
 import CompmechVerif.Model.StaticLemmas
 import CompmechVerif.Gen.Field.Clt
 import CompmechVerif.Gen.Field.CltW
 import Mathlib.Tactic.Ring
+import Mathlib.Algebra.BigOperators.Fin
+import Mathlib.Tactic.NormNum
 
 namespace Compmech.Static.C07
 open Compmech.Static Finset
@@ -54,5 +57,234 @@ theorem solve_sound (A : ℕ → ℕ → K) (b : ℕ → K) (n : ℕ) (used : Li
 theorem solve_linear (used : List ℕ) (px py : ℕ → K) (α β : K) (k : ℕ) :
     scatter used (fun s => α * px s + β * py s) k = α * scatter used px k + β * scatter used py k :=
   scatter_linear used px py α β k
+
+/-! ### stiffened bay (`StiffPanelBay.calc_fext`, Model/BayLoads.lean) -/
+
+/-- Stiffened bay, for ANY number of forces on the skin and on every stiffener part (flange of every 2-D blade that has one,
+base and flange of every T), any numbers of stiffeners: the product of the vector `calc_fext()` returns with any amplitude vector
+`c` equals the sum over all forces of force × displacement `(u, v, w)` of the force's OWN component at the force location,
+evaluated with that component's own slice of `c` — the slices being laid one after the other in the order skin, blade flanges
+(pad-up only blades have none and take no room), T base, T flange (`partsWork` walks `b.parts` with that running offset) —, and the
+vector has exactly the length of all slices together.  All forces the method reads are constant ones (unscaled): the method has
+no load factor, see `bay_fext_no_load_factor`. -/
+theorem bay_fext_dot_c_eq_work (b : BayLoads K) (c : ℕ → K) :
+    ∑ k ∈ range (bayFext b).length, (bayFext b).getD k 0 * c k = partsWork c 0 b.parts ∧
+      (bayFext b).length = (b.parts.map PartLoads.n).sum :=
+  ⟨bay_fext_dot_c_aux b c, bayFext_length b⟩
+
+/-- The offsets at which the method's successive `np.concatenate` calls put the parts (the length of the vector built so far,
+as logged by the model of the loops) are the running sums of the part sizes, every part has its own `get_size()` entries, and
+every force of its list was accumulated. -/
+theorem bay_fext_offsets (b : BayLoads K) : (bayLayout b).map Placed.triple = layoutFrom 0 b.parts :=
+  bay_layout_aux b
+
+/-- The accumulation clause: two load sets on the same bay (same skin series, same stiffeners and part sizes), applied
+together — every force list of the bay is the first set's list followed by the second set's —, give the entrywise SUM of the
+two vectors; in particular a second force on a skin, flange or base never replaces the first one. -/
+theorem bay_fext_additive (b d : BayLoads K) (h : SameLayout b d) :
+    bayFext (b.add d) = List.zipWith (· + ·) (bayFext b) (bayFext d) :=
+  bay_fext_additive_aux b d h
+
+/-- What the bay's method does about load factors, as written: it has no `inc` parameter (a call with that keyword raises
+`TypeError`, so the non-linear drivers cannot use it), and the incrementable lists `forces_inc` that flanges and bases carry as
+`Panel` objects are not read — emptying them changes neither the vector nor the layout. -/
+theorem bay_fext_no_load_factor (b : BayLoads K) (inc : K) :
+    bayCalcFext (some inc) b = .error "TypeError" ∧ bayCalcFext none b = .ok (bayFext b) ∧
+      bayFext b.dropInc = bayFext b ∧ bayLayout b.dropInc = bayLayout b :=
+  ⟨rfl, rfl, by rw [bayFext, bayRun_dropInc]; rfl, by rw [bayLayout, bayRun_dropInc]; rfl⟩
+
+/-- Hence the virtual-work identity WITH incrementable forces (`partsWorkInc`: what the property asks of `Panel` and
+`PanelAssembly`) fails for a bay whose flange was loaded through `flange.add_force(…, cte=False)`: one unit force `fz` on a
+one-amplitude flange, `c = 1`, load factor 1 — the bay's vector does no work, the force does work 1. -/
+theorem bay_fext_incrementable_ignored_counterexample :
+    ∃ (b : BayLoads ℚ) (c : ℕ → ℚ),
+      ∑ k ∈ range (bayFext b).length, (bayFext b).getD k 0 * c k ≠ partsWorkInc c 1 0 b.parts := by
+  refine ⟨⟨3, 0, 0, [], [some ⟨1, [], [⟨fun a => if a = 2 then 1 else 0, fun a _ => if a = 2 then 1 else 0⟩]⟩], []⟩,
+    fun _ => 1, ?_⟩
+  simp [bayFext, bayRun, fextBladeLoop, fextTLoop, accumulate, BayLoads.skinSize, BayLoads.parts, partsWorkInc,
+    Force.work, Force.disp, Fin.sum_univ_three]
+
+/-! ### assemblies with the running `col_start` of `PanelAssembly.__init__` -/
+
+/-- `PanelAssembly.calc_fext(inc)` with the `col_start` offsets that `__init__` computes (advancing by `3·m·n` per panel, every
+panel's own vector having `num·m·n ≤ 3·m·n` entries): its product with any `c` is the sum over ALL panels — none is skipped — of
+the work of the panel's constant forces plus `inc ×` the work of its incrementable ones, against the panel's own slice of `c`;
+`inc` not passed means 1. -/
+theorem assembly_fext_col_start_dot_c_eq_work (ps : List (AsmPanel K)) (inc : Option K) (c : ℕ → K)
+    (h : ∀ p ∈ ps, p.num ≤ 3) :
+    ∑ k ∈ range (asmSize ps), asmCalcFext ps inc k * c k = ((asmLoadsFrom ps 0).map (panelWork (inc.getD 1) c)).sum :=
+  asm_fext_dot_c_aux ps inc c h
+
+/-- A panel that carries ONLY incrementable forces (anywhere in an assembly: `pre` panels before it, `post` after it) contributes
+`inc ×` the work of those forces against its own slice, which starts at the total size of the panels before it: the assembly's
+`fext · c` is that of the assembly with this panel unloaded plus exactly this term. -/
+theorem assembly_fext_incremental_only (pre post : List (AsmPanel K)) (p : AsmPanel K) (hp : p.forces = [])
+    (inc : Option K) (c : ℕ → K) (h : ∀ q ∈ pre ++ p :: post, q.num ≤ 3) :
+    ∑ k ∈ range (asmSize (pre ++ p :: post)), asmCalcFext (pre ++ p :: post) inc k * c k =
+      ∑ k ∈ range (asmSize (pre ++ p.unloaded :: post)), asmCalcFext (pre ++ p.unloaded :: post) inc k * c k
+        + inc.getD 1 * (p.forcesInc.map fun F => F.work (asmSize pre) p.size c).sum :=
+  asm_incremental_only_aux pre post p hp inc c h
+
+/-! ### `Analysis.static(NLgeom=False)` / `static()` -/
+
+/-- Under the solver contract (`SolvesReduced`: the sparse solver's answer solves the reduced system it is handed — the
+hypothesis of `solve_sound`), when both callables return: the linear analysis stores exactly one vector `c`; `K c = f` holds on
+every amplitude whose column of `K` has a non-zero entry (`remove_null_cols` keeps exactly those), `c` vanishes on every
+amplitude whose column of `K` is null, where `K` is what `calc_k0(silent=…)` returned and `f` what `calc_fext(silent=…)` returned
+WITHOUT an `inc` keyword; no exception escapes.  (What that `f` is: `static_loads_at_full_load_factor`.) -/
+theorem static_linear_solves [DecidableEq K] (cb : Callables K) (sp : Spsolve K) (pre : AnalysisState K)
+    (f : ℕ → K) (k0 : ℕ → ℕ → K) (hf : cb.calcFext none = .ok f) (hk : cb.calcK0 = .ok k0)
+    (hsol : SolvesReduced sp k0 f cb.size) :
+    ∃ c, (analysisStatic cb sp pre).post.cs = [c] ∧ (analysisStatic cb sp pre).raised = none ∧
+      (∀ i, i < cb.size → (∃ r, r < cb.size ∧ k0 r i ≠ 0) → ∑ j ∈ range cb.size, k0 i j * c j = f i) ∧
+      (∀ k, (∀ r, r < cb.size → k0 r k = 0) → c k = 0) := by
+  refine ⟨solve sp k0 f cb.size, by simp [analysisStatic, hf, hk], by simp [analysisStatic, hf, hk], ?_, ?_⟩
+  · intro i hi hex
+    exact (solve_sound_used_aux sp k0 f cb.size hsol).1 i ((mem_usedCols k0 cb.size i).2 ⟨hi, hex⟩)
+  · intro k hk0
+    apply (solve_sound_used_aux sp k0 f cb.size hsol).2 k
+    intro hmem
+    obtain ⟨_, r, hr, hne⟩ := (mem_usedCols k0 cb.size k).1 hmem
+    exact hne (hk0 r hr)
+
+/-- The load vector the linear analysis solves for: `calc_fext` is called without `inc`, so a `Panel` and a `PanelAssembly`
+deliver their vector at the default `inc = 1.` (incrementable forces at full value), a bay its vector of constant forces. -/
+theorem static_loads_at_full_load_factor (forces forcesInc : List (Force K)) (n : ℕ) (ps : List (AsmPanel K))
+    (b : BayLoads K) (k0 : ℕ → ℕ → K) :
+    (panelCallables forces forcesInc n k0).calcFext none = .ok (calcFext forces forcesInc 1 0 n) ∧
+      (asmCallables ps k0).calcFext none = .ok (asmCalcFext ps (some 1)) ∧
+      (bayCallables b k0).calcFext none = .ok (fun k => (bayFext b).getD k 0) :=
+  ⟨rfl, rfl, rfl⟩
+
+/-- Linearity in the loads from the solver contract alone: same stiffness, three load cases `f₁`, `f₂` and `α f₁ + β f₂`; if the
+solver's answers solve the reduced systems and the reduced system has at most one solution, the stored solution of the combined
+case is `α c₁ + β c₂` on every amplitude. -/
+theorem static_linear_in_loads [DecidableEq K] (n : ℕ) (k0 : ℕ → ℕ → K) (f₁ f₂ : ℕ → K) (α β : K) (sp : Spsolve K)
+    (pre₁ pre₂ pre₃ : AnalysisState K)
+    (h₁ : SolvesReduced sp k0 f₁ n) (h₂ : SolvesReduced sp k0 f₂ n)
+    (h₃ : SolvesReduced sp k0 (fun k => α * f₁ k + β * f₂ k) n)
+    (huniq : ∀ x y : ℕ → K,
+      (∀ r, r < (usedCols k0 n).length →
+        ∑ s ∈ range (usedCols k0 n).length, reducedMat k0 (usedCols k0 n) r s * x s
+          = ∑ s ∈ range (usedCols k0 n).length, reducedMat k0 (usedCols k0 n) r s * y s) →
+      ∀ s, s < (usedCols k0 n).length → x s = y s) :
+    ∃ c₁ c₂ c₃,
+      (analysisStatic ⟨n, fun _ => .ok f₁, .ok k0⟩ sp pre₁).post.cs = [c₁] ∧
+      (analysisStatic ⟨n, fun _ => .ok f₂, .ok k0⟩ sp pre₂).post.cs = [c₂] ∧
+      (analysisStatic ⟨n, fun _ => .ok fun k => α * f₁ k + β * f₂ k, .ok k0⟩ sp pre₃).post.cs = [c₃] ∧
+      ∀ k, c₃ k = α * c₁ k + β * c₂ k :=
+  ⟨_, _, _, by simp [analysisStatic], by simp [analysisStatic], by simp [analysisStatic],
+    solve_linear_in_loads_aux sp k0 n f₁ f₂ α β h₁ h₂ h₃ huniq⟩
+
+/-- What the linear analysis reports: whatever an earlier analysis left in `increments` / `cs` is dropped; when the callables
+return, `increments = [1.]`, one solution vector, `last_analysis = 'static'`, and the calls made are `calc_fext` (without `inc`),
+`calc_k0`, `solve`, in this order; when `calc_fext` raises, the exception escapes after the reset: empty `increments` and `cs`,
+`last_analysis` unchanged, `calc_k0` never called.  The function `static(K, fext)` reports `[1.]` and the one solution too. -/
+theorem static_increments [DecidableEq K] (cb : Callables K) (sp : Spsolve K) (pre : AnalysisState K) :
+    (∀ f k0, cb.calcFext none = .ok f → cb.calcK0 = .ok k0 →
+      (analysisStatic cb sp pre).post.increments = [1] ∧
+      (analysisStatic cb sp pre).post.cs = [solve sp k0 f cb.size] ∧
+      (analysisStatic cb sp pre).post.lastAnalysis = "static" ∧
+      (analysisStatic cb sp pre).calls = [StaticCall.calcFext false, StaticCall.calcK0, StaticCall.solve]) ∧
+    (∀ e, cb.calcFext none = .error e →
+      analysisStatic cb sp pre = ⟨⟨[], [], pre.lastAnalysis⟩, [StaticCall.calcFext false], some e⟩) ∧
+    (∀ (A : ℕ → ℕ → K) (f : ℕ → K) (n : ℕ), staticFn sp A f n = ([1], [solve sp A f n])) := by
+  refine ⟨?_, ?_, fun _ _ _ => rfl⟩
+  · intro f k0 hf hk
+    simp [analysisStatic, hf, hk]
+  · intro e he
+    simp [analysisStatic, he]
+
+/-! ### Non-vacuity: concrete instances of the new statements (ℚ) -/
+
+/-- a force `(fx, fy, fz)` whose three shape rows are all `g` -/
+def exForce (fx fy fz : ℚ) (g : List ℚ) : Force ℚ :=
+  ⟨fun a => if a = 0 then fx else if a = 1 then fy else fz, fun _ j => g.getD j 0⟩
+
+/-- skin of 3 amplitudes with two forces; a pad-up only blade; a blade whose 2-amplitude flange carries two constant forces and
+an incrementable one; a T with two forces on its 1-amplitude base and an unloaded 2-amplitude flange -/
+def exBay : BayLoads ℚ :=
+  ⟨3, 1, 1, [exForce 1 0 0 [1, 2, 3], exForce 0 0 2 [1, 0, 1]],
+   [none, some ⟨2, [exForce 1 1 1 [1, 1], exForce 0 0 1 [0, 5]], [exForce 7 7 7 [1, 1]]⟩],
+   [(⟨1, [exForce 0 1 0 [4], exForce 0 1 0 [6]], []⟩, ⟨2, [], []⟩)]⟩
+
+/-- both forces of every part are in the vector (`[3, 8]` = `[3, 3] + [0, 5]`, `10 = 4 + 6`), the incrementable one is not -/
+example : bayFext exBay = [3, 2, 5, 3, 8, 10, 0, 0] := by
+  simp [bayFext, bayRun, fextBladeLoop, fextTLoop, accumulate, exBay, exForce, BayLoads.skinSize, Force.at,
+    Fin.sum_univ_three, List.range_succ]
+  norm_num
+
+/-- the log: skin at 0, flange of blade number 1 (number 0 has none) at 3, T base at 5, T flange at 6 -/
+example : (bayLayout exBay).map (fun e => (e.tag, e.idx, e.off, e.size, e.nforces)) =
+    [(tagSkin, 0, 0, 3, 2), (tagBladeFlange, 1, 3, 2, 2), (tagTBase, 0, 5, 1, 2), (tagTFlange, 0, 6, 2, 0)] := by
+  simp [bayLayout, bayRun, fextBladeLoop, fextTLoop, exBay, BayLoads.skinSize, accumulate_length]
+
+/-- `bay_fext_dot_c_eq_work` at `c = (1, 1, …)`: both sides are 31 -/
+example : ∑ k ∈ range (bayFext exBay).length, (bayFext exBay).getD k 0 * (fun _ => (1 : ℚ)) k = 31 ∧
+    partsWork (fun _ => (1 : ℚ)) 0 exBay.parts = 31 := by
+  have h := (bay_fext_dot_c_eq_work exBay (fun _ => (1 : ℚ))).1
+  refine ⟨?_, ?_⟩
+  · rw [h]
+    simp [partsWork, BayLoads.parts, exBay, exForce, BayLoads.skinSize, Force.work, Force.disp, Fin.sum_univ_three,
+      Finset.sum_range_succ]
+    norm_num
+  · simp [partsWork, BayLoads.parts, exBay, exForce, BayLoads.skinSize, Force.work, Force.disp, Fin.sum_univ_three,
+      Finset.sum_range_succ]
+    norm_num
+
+/-- `bay_fext_additive` is not vacuous: a bay has the layout of itself, and loading it twice doubles the vector -/
+example : SameLayout exBay exBay := ⟨rfl, rfl, rfl⟩
+example : bayFext (exBay.add exBay) = [6, 4, 10, 6, 16, 20, 0, 0] := by
+  rw [bay_fext_additive exBay exBay ⟨rfl, rfl, rfl⟩]
+  have : bayFext exBay = [3, 2, 5, 3, 8, 10, 0, 0] := by
+    simp [bayFext, bayRun, fextBladeLoop, fextTLoop, accumulate, exBay, exForce, BayLoads.skinSize, Force.at,
+      Fin.sum_univ_three, List.range_succ]
+    norm_num
+  rw [this]
+  norm_num
+
+
+/-- two panels of 3 amplitudes each; the second carries one incrementable force and no constant one -/
+def exAsm : List (AsmPanel ℚ) :=
+  [⟨3, 1, 1, [exForce 1 0 0 [1, 1, 1]], []⟩, ⟨3, 1, 1, [], [exForce 0 0 2 [1, 2, 3]]⟩]
+
+/-- … and is not skipped: at `inc = 1/2` its slice `[3, 6)` holds `1/2 · 2 · [1, 2, 3]` -/
+example : (List.range (asmSize exAsm)).map (asmCalcFext exAsm (some (1 / 2))) = [1, 1, 1, 1, 2, 3] := by
+  simp [asmSize, asmCalcFext, asmLoadsFrom, assemblyFext, calcFext, placed, panelFext, exAsm, exForce, AsmPanel.step,
+    AsmPanel.size, Force.at, Fin.sum_univ_three, List.range_succ]
+
+/-- the premise of `assembly_fext_incremental_only` holds for it, and the term it adds is `1/2 · 2 · (1 + 2 + 3) = 6` at `c = 1` -/
+example : (exAsm[1]'(by decide)).forces = [] ∧ (∀ q ∈ exAsm, q.num ≤ 3) ∧
+    (1 / 2 : ℚ) * ((exAsm[1]'(by decide)).forcesInc.map fun F => F.work (asmSize [exAsm[0]'(by decide)]) 3 (fun _ => 1)).sum = 6 := by
+  refine ⟨rfl, by simp [exAsm], ?_⟩
+  simp [exAsm, exForce, Force.work, Force.disp, Fin.sum_univ_three, Finset.sum_range_succ]
+  norm_num
+
+/-- a 3 × 3 stiffness whose middle amplitude has no stiffness, loads `(2, 5, 4)`, and a solver that answers `(1, 1)` -/
+def exK0 : ℕ → ℕ → ℚ := fun i j => if i = 0 ∧ j = 0 then 2 else if i = 2 ∧ j = 2 then 4 else 0
+def exF : ℕ → ℚ := fun k => if k = 0 then 2 else if k = 1 then 5 else 4
+def exSp : Spsolve ℚ := fun _ _ _ _ => 1
+
+example : usedCols exK0 3 = [0, 2] := by decide
+
+example : SolvesReduced exSp exK0 exF 3 := by
+  have hu : usedCols exK0 3 = [0, 2] := by decide
+  intro r hr
+  rw [hu] at hr ⊢
+  have : r = 0 ∨ r = 1 := by simp at hr; omega
+  rcases this with rfl | rfl <;> simp [reducedMat, reducedVec, exK0, exF, exSp, Finset.sum_range_succ]
+
+/-- the stored solution is `(1, 0, 1)` whatever was stored before; the load 5 on the amplitude without stiffness is not balanced -/
+example (pre : AnalysisState ℚ) :
+    ((analysisStatic ⟨3, fun _ => .ok exF, .ok exK0⟩ exSp pre).post.cs.map fun c => (List.range 3).map c) = [[1, 0, 1]] ∧
+    (analysisStatic ⟨3, fun _ => .ok exF, .ok exK0⟩ exSp pre).post.increments = [1] := by
+  have hu : usedCols exK0 3 = [0, 2] := by decide
+  simp [analysisStatic, solve, hu, scatter, exSp, List.range_succ, List.idxOf?, List.findIdx?_cons]
+
+/-- a bay callable raises when handed a load factor; the analysis then leaves an empty result and the old `last_analysis` -/
+example (b : BayLoads ℚ) (k0 : ℕ → ℕ → ℚ) : (bayCallables b k0).calcFext (some 1) = .error "TypeError" := rfl
+example (pre : AnalysisState ℚ) :
+    analysisStatic ⟨3, fun _ => .error "ValueError", .ok exK0⟩ exSp pre
+      = ⟨⟨[], [], pre.lastAnalysis⟩, [StaticCall.calcFext false], some "ValueError"⟩ := rfl
 
 end Compmech.Static.C07
